@@ -53,30 +53,38 @@ type LECase struct {
 
 const (
 	leTTL      = 100 * time.Millisecond
-	leKeys     = 4
+	leKeys     = 5
 	leMaxSleep = 450 // ms per lane
 	leSlack    = 2 * time.Millisecond
 )
 
 func genLE(t *rapid.T) LECase {
 	var c LECase
-	lanes := rapid.IntRange(1, 12).Draw(t, "lanes")
+	lanes := rapid.SampledFrom([]int{1, 4, 12, 24, 24, 24}).Draw(t, "lanes")
 	for l := 0; l < lanes; l++ {
 		lane := LELane{Size: rapid.IntRange(1, 3).Draw(t, "size")}
-		n := rapid.IntRange(3, 14).Draw(t, "nops")
+		n := rapid.IntRange(4, 16).Draw(t, "nops")
 		slept := 0
+		var added []int // keys added so far: re-adding them is what makes refreshes (of live and of expired keys)
 		for i := 0; i < n; i++ {
-			op := LEOp{K: rapid.SampledFrom([]int{0, 0, 0, 0, 0, 0, 1, 1, 1, 1, 2, 3}).Draw(t, "k")}
+			op := LEOp{K: rapid.SampledFrom([]int{0, 0, 0, 0, 0, 0, 0, 0, 0, 0, 1, 1, 1, 1, 2, 3}).Draw(t, "k")}
 			switch op.K {
 			case 1:
 				// fractions and multiples of the TTL: two mid sleeps expire a key while a
 				// key added between them stays live
-				op.Ms = rapid.SampledFrom([]int{10, 45, 70, 70, 130}).Draw(t, "ms")
+				op.Ms = rapid.SampledFrom([]int{10, 45, 70, 70, 100, 130, 130}).Draw(t, "ms")
 				if slept+op.Ms > leMaxSleep {
 					op.Ms = 10
 				}
 				slept += op.Ms
-			case 0, 2:
+			case 0:
+				if len(added) > 0 && rapid.Bool().Draw(t, "again") {
+					op.Key = rapid.SampledFrom(added).Draw(t, "key")
+				} else {
+					op.Key = rapid.IntRange(0, leKeys-1).Draw(t, "key")
+					added = append(added, op.Key)
+				}
+			case 2:
 				op.Key = rapid.IntRange(0, leKeys-1).Draw(t, "key")
 			}
 			lane.Ops = append(lane.Ops, op)
@@ -332,7 +340,7 @@ func runLELane(lane LELane) (res leLaneResult) {
 }
 
 func runLE(c LECase) pbt.Verdict {
-	if len(c.Lanes) == 0 || len(c.Lanes) > 16 {
+	if len(c.Lanes) == 0 || len(c.Lanes) > 32 {
 		return pbt.Verdict{Discard: true}
 	}
 	for _, l := range c.Lanes {
